@@ -364,7 +364,16 @@ def args2(job, method, n, shape):
             r2 = d(xs, A[1], key=K[1])
             second = list(seen[n1:])
             fresh = mk()(xs, A[1], key=K[1])
-            return r1, r2, fresh, second
+            # with full_output the value f(x) of the record is one more evaluation: it receives the arguments as well
+            n2 = len(seen)
+            dfo = mk()
+            dfo.full_output = True
+            vfo, info = dfo(xs, A[1], key=K[1])
+            second = second + list(seen[n2:])
+            fval = info.f_value
+            want_f = f(xs, A[1], key=K[1])      # same arithmetic context as the traced run
+            seen.pop()
+            return r1, r2, fresh, second, (fval, want_f)
     ex = sn.Explorer(harness, max_paths=64, timeout_ms=20000)
     ps = list(ex.paths())
     job.absorb_explorer(ex)
@@ -372,7 +381,10 @@ def args2(job, method, n, shape):
         if p.exc is not None:
             job.violation('raises', dict(key='C08:args2:%s:raises:%s' % (method, type(p.exc).__name__), kind='args2', exc=repr(p.exc)[:300]))
             continue
-        r1, r2, fresh, second = p.result
+        r1, r2, fresh, second, (fval, want_f) = p.result
+        fa, fw = (cm.flat_list(fval) if np.ndim(fval) else [fval]), (cm.flat_list(want_f) if np.ndim(want_f) else [want_f])
+        if not job.confirm('info.f_value is f(x, *args, **kwds)', len(fa) == len(fw) and all(_same_c(u, v) for u, v in zip(fa, fw))):
+            job.violation('f_value', dict(key='C08:args2:%s:f_value-without-arguments' % method, kind='args2'))
         ok = len(second) > 0 and all(a is A[1] and k is K[1] for (a, k) in second)
         if not job.confirm('every evaluation of the second call receives the second call\'s arguments', ok):
             job.violation('forwarding', dict(key='C08:args2:%s:stale-arguments-passed' % method, kind='args2'))
@@ -515,6 +527,14 @@ def replay(cex):
                 d(xs, a1, key=k1)
                 got = d(xs, a2, key=k2)
                 want = mk()(xs, a2, key=k2)
+            with cm.quiet():
+                try:
+                    vfo, info = nd.Derivative(f, method=method, n=n, order=2, full_output=True)(xs, a2, key=k2)
+                except Exception as e:  # noqa
+                    return True, 'Derivative(method=%s, n=%d, full_output=True)(x, a, key=k) raises %s: %s' % (method, n, type(e).__name__, e)
+            if not np.array_equal(np.asarray(info.f_value), np.asarray(f(xs, a2, key=k2))):
+                return True, ('Derivative(method=%s, n=%d, full_output=True): info.f_value = %r, but f(x, a=%r, key=%r) = %r'
+                              % (method, n, info.f_value, a2, k2, f(xs, a2, key=k2)))
             if not np.array_equal(np.asarray(got), np.asarray(want)):
                 return True, ('Derivative(method=%s, n=%d): after a call with (a=%r, key=%r) the same object called at the same x with '
                               '(a=%r, key=%r) returns %r, a fresh object %r' % (method, n, a1, k1, a2, k2, got, want))
